@@ -368,8 +368,12 @@ def evaluate(world, drv, want_states=False, oracles=("effects",), plan=None, fau
         # nothing stored under an insecure .Trash/$uid is shown, restored or deleted
         mentions = False
         for e in world["meta"]["entries"]:
-            if e["tdir"] in facts["insecure_roots"] and e["loc"] in obs["stdout"]:
-                mentions = True
+            if e["tdir"] in facts["insecure_roots"]:
+                # the same original location may also be recorded by entries of usable directories: count the lines
+                shown = (obs["stdout"] + b"\n").count(b" " + e["loc"] + b"\n")
+                elsewhere = sum(1 for o in world["meta"]["entries"] if o["loc"] == e["loc"] and o["tdir"] not in facts["insecure_roots"])
+                if shown > elsewhere:
+                    mentions = True
         res["oracle"]["C08"] = drv.ask(dict(base, prop="C08", roots=[hx(r) for r in facts["insecure_roots"]], mentions=mentions))
         res["tags"].append("c08:insecure-populated")
     if cmd == "restore":
